@@ -1,22 +1,27 @@
 #!/usr/bin/env bash
-# Apply a seeded change to /repo, run the given checks (default: all, quick tier), undo it.
-# usage: tools/try_mutant.sh <patch.diff> [check ids...]
-# Prints one line per check: <id> CAUGHT|missed|broken (exit code) and the first rule that fired.
+# Evaluate a seeded change WITHOUT touching /repo: a scratch worktree of /repo's HEAD gets the patch, a
+# scratch copy of the harness is pointed at it, and the given checks (default all, quick tier) are run.
+# usage: tools/try_mutant.sh <patch.diff> [check ids...]      env: SLOT=<name> to run several in parallel, TIER=quick|thorough
+# (The official procedure — git -C /repo apply; ./check ...; git -C /repo checkout -- . — gives the same verdicts.)
 set -u
 cd "$(dirname "$0")/.."
 PATCH="$(readlink -f "$1")"; shift
 CHECKS="${*:-C01 C02 C03 C04 C05 C06 C07 C08 C09 C10 C11 C12 C13 C14 C15 C16 C17 C18 C19 C20}"
-if ! git -C /repo diff --quiet; then echo "/repo has uncommitted changes; refusing" >&2; exit 2; fi
-git -C /repo apply "$PATCH" || { echo "patch does not apply" >&2; exit 2; }
-trap 'git -C /repo checkout -- . ' EXIT
-export FV_OUT_DIR=/tmp/fv-mut-verif
+S=/tmp/fv-mut-${SLOT:-0}
+if [ ! -d "$S/repo" ]; then mkdir -p "$S"; git -C /repo worktree add -q --detach "$S/repo" HEAD || exit 2; fi
+git -C "$S/repo" checkout -q --detach "$(git -C /repo rev-parse HEAD)" && git -C "$S/repo" checkout -q -- . && git -C "$S/repo" clean -qfd
+git -C "$S/repo" apply "$PATCH" || { echo "patch does not apply" >&2; exit 2; }
+mkdir -p "$S/harness"; rsync -a --delete --exclude target --exclude 'target.build-*' harness/ "$S/harness/"
+sed -i "s#path = \"/repo\"#path = \"$S/repo\"#" "$S/harness/Cargo.toml"
+export FV_HARNESS_DIR="$S/harness" FV_OUT_DIR="$S/out"
 rm -rf "$FV_OUT_DIR"; mkdir -p "$FV_OUT_DIR/evidence" "$FV_OUT_DIR/replays"; cp known_findings.txt "$FV_OUT_DIR/" 2>/dev/null
 for c in $CHECKS; do
     out=$(./check "$c" "${TIER:-quick}" 2>&1); rc=$?
-    rule=$(echo "$out" | grep -m1 "^  rule" | sed 's/^  rule //' | cut -c1-150)
+    rule=$(echo "$out" | grep -m1 "^  rule" | sed 's/^  rule //' | cut -c1-170)
     case $rc in
         0) echo "$c missed";;
         1) echo "$c CAUGHT  $rule";;
         *) echo "$c broken($rc) $(echo "$out" | tail -2 | tr '\n' ' ' | cut -c1-200)";;
     esac
 done
+git -C "$S/repo" checkout -q -- .
